@@ -16,24 +16,25 @@ import (
 
 // WOp is one write operation.
 type WOp struct {
-	Kind      string         `json:"kind"`
-	Users     []fam.UserSpec `json:"users,omitempty"`
-	BatchSize int            `json:"batch_size,omitempty"`
-	FullSave  bool           `json:"full_save,omitempty"`
-	SkipHooks bool           `json:"skip_hooks,omitempty"`
-	Select    []string       `json:"select,omitempty"`
-	Target    uint           `json:"target,omitempty"`
-	Unscoped  bool           `json:"unscoped,omitempty"`
-	SessBatch int            `json:"session_batch_size,omitempty"` // create_slice / create_ptr_slice: Session{CreateBatchSize} routes Create through CreateInBatches
-	Returning bool           `json:"returning_all,omitempty"`      // create kinds: Clauses(clause.Returning{}), i.e. RETURNING *
-	ScopeSess bool           `json:"scope_session,omitempty"`      // the operation carries a scope that returns a WithContext handle
-	Share     bool           `json:"share,omitempty"`              // records with the same non-zero key are one in-memory record shared by several parents
-	Str       string         `json:"str,omitempty"`
-	Int       int            `json:"int,omitempty"`
+	Kind       string         `json:"kind"`
+	Users      []fam.UserSpec `json:"users,omitempty"`
+	BatchSize  int            `json:"batch_size,omitempty"`
+	FullSave   bool           `json:"full_save,omitempty"`
+	SkipHooks  bool           `json:"skip_hooks,omitempty"`
+	Select     []string       `json:"select,omitempty"`
+	Target     uint           `json:"target,omitempty"`
+	Unscoped   bool           `json:"unscoped,omitempty"`
+	SessBatch  int            `json:"session_batch_size,omitempty"` // create_slice / create_ptr_slice: Session{CreateBatchSize} routes Create through CreateInBatches
+	Returning  bool           `json:"returning_all,omitempty"`      // create kinds: Clauses(clause.Returning{}), i.e. RETURNING *
+	ScopeSess  bool           `json:"scope_session,omitempty"`      // the operation carries a scope that returns a WithContext handle
+	RootFriend bool           `json:"root_friend,omitempty"`        // create_ptr_slice: the second argument record is also a friend of the first (`users := []*User{a, b}; a.Friends = []*User{b}`)
+	Share      bool           `json:"share,omitempty"`              // records with the same non-zero key are one in-memory record shared by several parents
+	Str        string         `json:"str,omitempty"`
+	Int        int            `json:"int,omitempty"`
 }
 
 var WriteKinds = []string{
-	"create", "create_slice", "create_ptr_slice", "create_batches", "create_map", "create_lang", "create_langs", "update_lang", "create_memo", "save_memo", "create_toy", "update_toy", "create_account", "update_account",
+	"create", "create_slice", "create_ptr_slice", "create_batches", "create_map", "create_lang", "create_langs", "update_lang", "create_memo", "save_memo", "update_memo", "create_toy", "update_toy", "create_account", "update_account", "delete_toy", "delete_account", "delete_lang", "update_company", "delete_company", "update_pet",
 	"save", "save_slice",
 	"update", "updates_struct", "updates_ptr", "updates_map", "updates_assoc", "updates_self", "update_column", "update_columns",
 	"delete", "delete_pet", "delete_select", "delete_where", "delete_slice",
@@ -79,7 +80,11 @@ func (op *WOp) Exec(db *gorm.DB) (res Result) {
 			sh = fam.NewShared()
 		}
 		for i := range op.Users {
-			out[i] = op.Users[i].BuildShared(sh)
+			if len(op.Users) > 1 {
+				out[i] = op.Users[i].BuildPlain(sh)
+			} else {
+				out[i] = op.Users[i].BuildShared(sh)
+			}
 		}
 		return out
 	}
@@ -113,6 +118,14 @@ func (op *WOp) Exec(db *gorm.DB) (res Result) {
 		}
 	case "create_ptr_slice":
 		us := build()
+		if op.RootFriend && len(us) >= 2 {
+			// the only friend of any argument record (the friends of all of them are saved
+			// as one batch, which gorm skips only if every record of it was visited before)
+			for _, u := range us {
+				u.Friends = nil
+			}
+			us[0].Friends = []*fam.User{us[1]}
+		}
 		res.Roots, res.Value = us, &us
 		return done(db.Create(&us))
 	case "create_map":
@@ -121,6 +134,18 @@ func (op *WOp) Exec(db *gorm.DB) (res Result) {
 		return done(db.Create(&fam.Toy{Name: op.Str}))
 	case "update_toy":
 		return done(db.Model(&fam.Toy{ID: 1}).Update("name", op.Str))
+	case "delete_lang":
+		return done(db.Delete(&fam.Language{Code: "zh"}))
+	case "update_company":
+		return done(db.Model(&fam.Company{ID: 1}).Update("name", op.Str))
+	case "delete_company":
+		return done(db.Delete(&fam.Company{ID: 3}))
+	case "update_pet":
+		return done(db.Model(&fam.Pet{ID: 4}).Update("name", op.Str))
+	case "delete_toy":
+		return done(db.Delete(&fam.Toy{ID: 1}))
+	case "delete_account":
+		return done(db.Delete(&fam.Account{ID: 1}))
 	case "create_account":
 		return done(db.Create(&fam.Account{Number: op.Str}))
 	case "update_account":
@@ -128,6 +153,8 @@ func (op *WOp) Exec(db *gorm.DB) (res Result) {
 	case "create_memo":
 		// a model whose only hook has a value receiver
 		return done(db.Create(&fam.Memo{Text: op.Str}))
+	case "update_memo":
+		return done(db.Model(&fam.Memo{ID: 1}).Update("text", op.Str))
 	case "save_memo":
 		return done(db.Save(&fam.Memo{Text: op.Str}))
 	case "create_lang":
@@ -245,6 +272,14 @@ func GenWOp(r *core.Rand, kinds []string) WOp {
 		if n >= 2 && op.Kind != "save_slice" && r.Chance(20) {
 			op.SessBatch = r.Range(1, 2)
 		}
+		if n >= 2 && op.Kind == "create_ptr_slice" && op.SessBatch == 0 && r.Chance(30) {
+			// the first association the operation saves consists of argument records only:
+			// new records without any other association
+			op.RootFriend = true
+			for i := range op.Users {
+				op.Users[i] = fam.UserSpec{Name: op.Users[i].Name, Age: op.Users[i].Age}
+			}
+		}
 		if n >= 2 && r.Chance(35) {
 			// several parents reference one shared company / friend record (all parents
 			// in one batch: each batch of a batched Create is a pipeline of its own and
@@ -326,6 +361,11 @@ func ShrinkWOp(op WOp) []WOp {
 	if op.Share {
 		v := op
 		v.Share = false
+		out = append(out, v)
+	}
+	if op.RootFriend {
+		v := op
+		v.RootFriend = false
 		out = append(out, v)
 	}
 	if op.SessBatch > 0 {
